@@ -1219,9 +1219,17 @@ impl Check for C07Static {
         o.focus_strictness = true;
         // (layout noise: CR LF files among others - a line continuation inside a directive then holds a CR)
         o.layout_noise = t.flag();
+        let stale = t.chance(6);
         let p = gen_program_t(&mut t, &o);
-        let tags: Vec<&str> = p.tags.iter().copied().collect();
-        json!({"src": p.src, "cfg": cfg.json, "file": "/app/src/gen.js", "tags": tags})
+        let mut tags: Vec<&str> = p.tags.iter().copied().collect();
+        let mut src = p.src;
+        if stale && !p.module && !src.starts_with("#!") {
+            // a file that was rewritten by an older release: it starts with that release's prologue, and the strings
+            // behind it are NOT directives (they follow a statement)
+            tags.push("stale-prologue-then-strings");
+            src = format!(";\nif (typeof _ddiast === 'undefined') (function(globals){{ const noop = (res) => res; globals._ddiast = globals._ddiast || {{ plusOperator: noop }}; }}((1,eval)('this')));\n'use foo';\n'use strict';\n{src}");
+        }
+        json!({"src": src, "cfg": cfg.json, "file": "/app/src/gen.js", "tags": tags})
     }
     fn rule(&self) -> String {
         "programs and function-likes with 0-3 leading directives in any order / quote style, look-alikes, script and module; static oracle: after the \
